@@ -20,6 +20,22 @@ CHECKS = {
          "DESIGN.md §3 C06",
          "Every arrival order of each alphabet is executed on the real pool, so each of the four triggers is last on some path; after every step the set of SafeToNotar / SafeToSkip events emitted must equal the set the reference predicate says became due in that step (no early, missing or repeated signal).",
          "Bounded alphabets (parent slot + child slot, 2-3 competing blocks, stake vectors hitting 20/40/60% exactly); a child of genesis is expected never to be signalled (no certificate is held for genesis)."),
+ "C07": ("model_checking", "explicit-state BFS over every delivery order of safety-consistent multi-slot scenarios (certificates, votes, block-parent links, waiter registrations) on a real PoolImpl against the certified-and-skip-connected reference relation", "E2",
+         "DESIGN.md §3 C07",
+         "For every scenario of the family every arrival order is executed on the real pool; after every step parents_ready(s) must equal the reference set for every unpruned window start, every ParentReady announcement must be a member, emitted at most once and never for a pruned slot, newly ready pairs must be announced in the same step (except pairs dominated by the documented highest-window-only forwarding of one finalization event), and a registered waiter must be woken with a ready parent in the step the set becomes non-empty.",
+         "Scenario family: curated + systematic per-slot menu over 3-4 slots and two windows, 3 equal stakes; certificates mostly injected as received certificates (vote-built ones in two scenarios)."),
+ "C08": ("model_checking", "explicit-state BFS over every delivery order of safety-consistent multi-slot scenarios on a real PoolImpl against the finality closure (FF or Final+Notar, ancestors through known parent links) and the decided-prefix watermark", "E2",
+         "DESIGN.md §3 C08",
+         "After every step of every order: finalized_slot() equals the highest slot with FF or Final+Notar held and never decreases; the set of blocks/slots reported finalized / implicitly skipped equals the reference closure, each reported once; the first unpruned slot equals the end of the decided prefix (never beyond it, never behind it); nothing is retained below it (slot states, parent-ready states, finality status, parent links, waiting children) and inputs for older slots are refused while inputs for undecided slots are accepted.",
+         "Same scenario family as C07 (includes the protocol-legal notar(x)+notar-fallback(a) equivocation case, finals before notars, children before parents, late certificates for implicitly decided slots)."),
+ "C15": ("exploration", "exhaustive enumeration of claims (leaf, index, root, proof) over all tree sizes 1..64 (1..1024 thorough) against an independent recursive reference tree", "E3",
+         "DESIGN.md §3 C15",
+         "Every genuine proof must verify and every mutated claim from the menu (index inside/outside the width, other leaf, flipped root, each proof element flipped/emptied/swapped/reordered, every shorter proof, longer proofs up to 34) must be rejected by check_proof and check_proof_last; the last-leaf variant must hold exactly when all leaves to the right are empty. The typed DoubleMerkleTree used by repair is swept as well.",
+         "Collision resistance of SHA-256 is assumed (a mutated claim is expected to fail); indices beyond 4*width are sampled at structured values."),
+ "C18": ("model_checking", "explicit-state BFS over every delivery order of the C08 scenario family with the standstill-recovery bundle examined in every reached state (fresh real pool fed only the bundle)", "E2",
+         "DESIGN.md §3 C18",
+         "In every state of every order recover_from_standstill is triggered on the real pool: it must not panic (also before anything is finalized) nor change state; the bundle must contain certificates proving finalized_slot(), every certificate held for later slots and every own vote for later slots; every element must pass validation; a fresh real pool fed only the bundle must reach the same finalized_slot() and the same parents_ready for the following window.",
+         "Pool side only so far; the Votor forwarding part is checked with the E1 machinery (C05). 3 equal stakes, own validator 0."),
 }
 
 NOT_YET = {}
@@ -58,6 +74,8 @@ def main():
         "engines": [
             {"name": "E2", "path": "/verif/harness/src/engine.rs", "serves_properties": sorted(k for k, v in CHECKS.items() if v[2] == "E2"),
              "kind_free_text": "level-synchronous replay-based explicit-state BFS over operation sequences of real components, dedup on a digest of the complete real state, reference model compared on every transition"},
+            {"name": "E3", "path": "/verif/harness/src", "serves_properties": sorted(k for k, v in CHECKS.items() if v[2] == "E3"),
+             "kind_free_text": "exhaustive nested-loop enumeration of a finite structured input domain of pure functions, oracle = independent recomputation"},
         ],
         "checks": checks,
         "not_applicable": na,
